@@ -1,6 +1,6 @@
 SPECIFICATION Spec
 CONSTANTS
-  Profiles = {"win1stray", "win2small", "riders1", "early1", "same2w2", "same3", "sameridq"}
+  Profiles = {"win1stray", "win2small", "riders1", "early1", "same2w2", "same3", "sameridq", "frozenridq"}
 INVARIANT TypeOK
 INVARIANT ReadingsAgree
 INVARIANT WindowsOK
